@@ -91,13 +91,8 @@ def build_overlay(ctx, clocks=()):
 
 
 def ensure_gosum():
-    src = os.path.join(REPO, "go.sum")
-    dst = os.path.join(HARNESS, "go.sum")
-    try:
-        if not os.path.exists(dst) or open(src).read() != open(dst).read():
-            shutil.copyfile(src, dst)
-    except OSError as ex:
-        raise CheckError("go.sum: %s" % ex)
+    """harness/go.mod and go.sum are generated from /repo's (same pinned versions, offline)."""
+    run([sys.executable, os.path.join(VERIF, "tools", "mkgomod.py"), REPO], timeout=60)
 
 
 def build_driver(ctx, cmd_name, clocks=(), race=False, tags="verif"):
@@ -164,13 +159,13 @@ def _copy_specs(ctx, sub):
 
 
 def tlc(ctx, spec, cfg, workers=None, env=None, timeout=1800, extra=(), sub=None, deque=False, xss=True,
-        want_exports=True):
+        want_exports=True, simulate=False):
     """Run TLC on spec/<spec>.tla with spec/<cfg>; returns TlcResult. Never raises on a property
     violation (that is data); raises CheckError on tool failure."""
     sub = sub or ("tlc_%s_%d" % (cfg.replace(".cfg", ""), int(time.time() * 1000) % 100000))
     d = _copy_specs(ctx, sub)
     md = os.path.join(d, "md")
-    cmd = ["timeout", str(timeout), "tlc", "-metadir", md, "-workers", str(workers or "auto"), "-config", cfg] + list(extra) + [spec]
+    cmd = ["timeout", str(timeout), "tlc", "-noGenerateSpecTE", "-metadir", md, "-workers", str(workers or "auto"), "-config", cfg] + list(extra) + [spec]
     e = dict(env or {})
     jto = []
     if xss:
@@ -180,11 +175,35 @@ def tlc(ctx, spec, cfg, workers=None, env=None, timeout=1800, extra=(), sub=None
     if jto:
         e["JAVA_TOOL_OPTIONS"] = " ".join(jto)
     t = time.time()
-    p = run(cmd, cwd=d, env=e, timeout=timeout + 60, check=False)
+    outp = os.path.join(d, "tlc.out")
+    ee = dict(os.environ)
+    ee.update(GOENV)
+    ee.update(e)
+    with open(outp, "w") as fo:
+        try:
+            p = subprocess.run(cmd, cwd=d, env=ee, timeout=timeout + 60, stdout=fo, stderr=subprocess.STDOUT)
+        except subprocess.TimeoutExpired:
+            raise CheckError("TLC timed out after %ss on %s/%s" % (timeout, spec, cfg))
     r = TlcResult()
     r.wall = time.time() - t
-    r.out = p.stdout or ""
-    parse_tlc(r, want_exports)
+    keep = []
+    with open(outp, errors="replace") as fi:
+        for line in fi:
+            if line.startswith('"{') or line.startswith('"['):
+                if want_exports:
+                    try:
+                        r.exports.append(json.loads(json.loads(line)))
+                    except Exception:
+                        pass
+            else:
+                keep.append(line)
+                if len(keep) > 20000:
+                    del keep[2000:12000]
+    r.out = "".join(keep)
+    parse_tlc(r, False)
+    if simulate and "Finished in" in r.out and "Error:" not in r.out:
+        r.ok = True
+    os.remove(outp)
     shutil.rmtree(md, ignore_errors=True)
     if p.returncode == 124:
         raise CheckError("TLC timed out after %ss on %s/%s" % (timeout, spec, cfg))
@@ -209,8 +228,7 @@ def parse_tlc(r, want_exports=True):
     m = _re_depth.search(out)
     if m:
         r.depth = int(m.group(1))
-    r.ok = "Model checking completed. No error has been found." in out or \
-           ("Finished in" in out and "Error:" not in out and "-simulate" in out)
+    r.ok = "Model checking completed. No error has been found." in out
     i = out.find("Error:")
     if i >= 0:
         r.ok = False
@@ -243,6 +261,10 @@ def trace_validate(ctx, spec, cfg, trace_path, timeout=1800, env=None, deque=Fal
         e.update(env)
     r = tlc(ctx, spec, cfg, workers=workers, env=e, timeout=timeout, deque=deque, want_exports=False)
     info = {"states": r.distinct, "generated": r.generated, "wall": r.wall}
+    for line in r.out.splitlines():
+        m = re.match(r'<<"DRIFT", (\d+)>>', line)
+        if m:
+            info["drift"] = int(m.group(1))
     if r.ok:
         return True, info
     info["error"] = (r.error or "")[:1500]
@@ -252,6 +274,14 @@ def trace_validate(ctx, spec, cfg, trace_path, timeout=1800, env=None, deque=Fal
         m = re.match(r'<<"TRACE_REJECTED_AT", (\d+), (\d+)>>', line)
         if m:
             hw = int(m.group(1))
+        m = re.match(r'<<"CLAUSE_BROKEN", (\d+), "([^"]*)">>', line)
+        if m:
+            info.setdefault("broken", []).append((int(m.group(1)), m.group(2)))
+            if "clause" not in info:
+                info["line"] = int(m.group(1))
+                info["clause"] = m.group(2)
+    if "clause" in info:
+        return False, info
     if r.invariant and r.invariant != "TraceAccepted" and r.last_l is not None:
         # invariant failed in the state reached after consuming line l-1
         info["line"] = r.last_l - 1
